@@ -392,3 +392,8 @@ case("c15-merge-new-run-off-by-one", "break", ["C15"], [(_TC, """               
             }
             None""")], "a run started after a gap begins one code point late", expect_key=["merge-semantics"])
 case("c15-gap-first-entry", "break", ["C15"], [(TOOLS + "generators/ucd_generator.rs", "                if cp.value() - self.range.end.value() != 0 {", "                if cp.value() - self.range.end.value() > 1 {")], "a one-code-point gap before a single entry is not emitted (pinned inputs have none at U+0000)", expect_key=["gap-semantics|step"])
+case("c17-keep-strip-terminator", "keep", ["C17"], [(CSVF, "            if self.line_number > 1 {\n                break;", "            if self.line_number > 1 {\n                if self.line.ends_with('\\n') {\n                    self.line.pop();\n                    if self.line.ends_with('\\r') {\n                        self.line.pop();\n                    }\n                }\n                break;")], "the line terminator, and only it, is removed before parsing")
+case("c17-truncate-blindly", "break", ["C17"], [(CSVF, "            if self.line_number > 1 {\n                break;", "            if self.line_number > 1 {\n                self.line.truncate(n - 1);\n                break;")], "a last row without line terminator loses a character", expect_key=["line-numbers|text"])
+_UP = TOOLS + "ucd_parsers.rs"
+case("c15-pairing-range-starts-at-last", "break", ["C15"], [(_UP, "                    r.end = udata.codepoint;\n", "                    r.end = udata.codepoint;\n                    r.start = udata.codepoint;\n")], "a First/Last pair yields only its last code point (never executed differently by the tests' inputs? — the pinned tables do change: L5 fires too)", expect_key=["first-last-pairing", "L5"])
+case("c15-pairing-accepts-plain-inside", "break", ["C15"], [(_UP, "                    if !udata.is_range_end() {\n                        return err!(", "                    if !udata.is_range_end() && udata.is_range_start() {\n                        return err!(")], "a plain line between First and Last is swallowed into the range instead of being an error", expect_key=["first-last-pairing"])
